@@ -253,6 +253,10 @@ PROPS["C10"] = {
             ("nort_recycle", C(InitMax=1, Budget=3, GetModes=["nb", "bl"], RecycleTO=["none", "finite"], HasRuntime=False, AllowCancel=False, AllowSuspend=False), True),
             ("poollevel", C(Tasks=["t1"], InitMax=1, Budget=4, GetModes=["timed"], CreateTO=["finite"], RecycleTO=["finite"], AllowCancel=False, ThreadLevel=False), True,
              {"hcfg": {"pool_level": True, "pool_wait": "timed", "pool_cto": "finite", "pool_rto": "finite"}}),
+            # a pool WITH pool-level timeouts asked through timeout_get() with other per-call values (none in
+            # particular): the per-call value decides, time may pass without any deadline
+            ("percall", C(Tasks=["t1"], InitMax=1, Budget=4, GetModes=["bl", "timed"], CreateTO=["none", "finite"], RecycleTO=["none", "finite"], AllowCancel=False, AllowFail=False, ThreadLevel=False), True,
+             {"hcfg": {"pool_level": True, "pool_wait": "timed", "pool_cto": "finite", "pool_rto": "finite"}}),
             ("u_rt", C(MaxSize=1, NObjs=2, Budget=3, GetModes=["try", "bl", "timed"], HasRuntime=True, AllowTake=False, AllowRemove=False), True, U),
             ("u_nort", C(MaxSize=1, Preload=1, NObjs=1, Budget=3, GetModes=["try", "bl", "timed"], HasRuntime=False, AllowAdd=False), True, U),
         ],
@@ -265,6 +269,8 @@ PROPS["C10"] = {
             ("nort_create", C(InitMax=1, Budget=4, GetModes=["nb", "bl"], CreateTO=["none", "zero", "finite"], HasRuntime=False, AllowSuspend=False), True),
             ("nort_recycle", C(InitMax=2, Budget=4, GetModes=["nb", "bl"], RecycleTO=["none", "zero", "finite"], HasRuntime=False, AllowSuspend=False), True),
             ("poollevel", C(Tasks=["t1"], InitMax=2, Budget=5, GetModes=["timed"], CreateTO=["finite"], RecycleTO=["finite"], ThreadLevel=False), True,
+             {"hcfg": {"pool_level": True, "pool_wait": "timed", "pool_cto": "finite", "pool_rto": "finite"}}),
+            ("percall", C(Tasks=["t1", "t2"], InitMax=1, Budget=4, GetModes=["bl", "timed"], CreateTO=["none", "finite"], RecycleTO=["none", "finite"], ThreadLevel=False), True,
              {"hcfg": {"pool_level": True, "pool_wait": "timed", "pool_cto": "finite", "pool_rto": "finite"}}),
             ("u_rt", C(MaxSize=2, NObjs=2, Budget=4, GetModes=["try", "bl", "timed"], HasRuntime=True), True, U),
             ("u_nort", C(MaxSize=1, Preload=1, NObjs=2, Budget=4, GetModes=["try", "bl", "timed"], HasRuntime=False), True, U),
